@@ -197,7 +197,20 @@ static void op_c04_sweep(Exec& x, const Json& op, int)
 		} else {
 			if (r1.exit_code != 0) x.violation("C04", "false-alarm-exit", when + strf(": undamaged array, exit %d: ", r1.exit_code) + r1.err.substr(0, 200), focus);
 		}
-		if (!partial) for (auto& g : got) if (!expect.count(g) && !optional.count(g)) x.violation("C04", cs1.t.empty() ? "false-alarm-tag" : "wrong-location", when + ": unexpected tag " + g, focus);
+		if (!partial) for (auto& g : got) {
+			if (expect.count(g) || optional.count(g)) continue;
+			// with several damaged blocks in a stripe, check tries combinations of parity levels and names the whole set that
+			// failed ("parity_error:<pos>:parity/2-parity"): right when the set contains a damaged level of that stripe
+			bool set_ok = false;
+			if (starts_with(g, "parity_error:") && g.find('/') != std::string::npos) {
+				std::vector<std::string> f = split(g, ':');
+				if (f.size() >= 3)
+					for (auto& name : split(f[2], '/'))
+						if (expect.count("parity_error:" + f[1] + ":" + name) || optional.count("parity_error:" + f[1] + ":" + name)) set_ok = true;
+			}
+			if (set_ok) { x.probe("c04.parity_set_named"); continue; }
+			x.violation("C04", cs1.t.empty() ? "false-alarm-tag" : "wrong-location", when + ": unexpected tag " + g, focus);
+		}
 		// scrub: bad marks exactly on the affected stripes, visible in status
 		if (s.cmd == "scrub") {
 			std::vector<LoadedContent> after = load_contents(x.sb);
